@@ -137,7 +137,10 @@ def render_args(prog, callee, args, multiline=False, here_mod=None):
 def render_stmt(prog, here_mod, k, st, in_class=False):
     kind = st[0]
     if kind == "var":
-        return [f"r{k} = {prog['vars'][st[1]]['name']}"]
+        v = prog["vars"][st[1]]
+        if len(st) > 2 and st[2] == "modattr" and v["mod"] != here_mod:
+            return [f"r{k} = {prog['mods'][v['mod']]}.{v['name']}"]     # read through the module: m0.VA
+        return [f"r{k} = {v['name']}"]
     if kind == "ext":
         return [f"r{k} = xu.e{st[1]}()"]
     if kind == "call":
@@ -222,6 +225,10 @@ def render_module(prog, mi, as_blocks=False):
                     il = import_line(prog, mi, a[1], a[2])
                     if il and il not in imports:
                         imports.append(il)
+            if st[0] == "var" and len(st) > 2 and st[2] == "modattr" and prog["vars"][st[1]]["mod"] != mi:
+                il = f"from {pkg} import {prog['mods'][prog['vars'][st[1]]['mod']]}"
+                if il not in imports:
+                    imports.append(il)
             if st[0] == "cls" and prog["classes"][st[1]]["mod"] != mi:
                 c = prog["classes"][st[1]]
                 il = f"from {pkg}.{prog['mods'][c['mod']]} import {c['name']}"
